@@ -338,6 +338,9 @@ fn do_remapping_loop_one_device(driver: &mut impl Driver, layout: Layout, verbos
                   assert(s0 + outs =~= (s0 + outs.drop_last()).push(repeat_send@));
                 }
                 driver.send(&repeat_send)?;
+                //@ C20 | a failed write has returned: nothing has failed when execution goes on after a write
+                proof { assert(!driver.failed()); }
+                //@ C11 | the timer after a tick
                 working_repeat = WorkingRepeat::Repeating {
                   keys,
                   next_wakeup: next_wakeup + Duration::from_millis(interval_ms as u64),
@@ -444,6 +447,8 @@ fn do_remapping_loop_one_device(driver: &mut impl Driver, layout: Layout, verbos
                           driver.send(&evs_out)?;
                         }
                         proof {
+                          //@ C20 | a failed write has returned: nothing has failed when execution goes on after a write
+                          assert(!driver.failed());
                           //@ C10 | the output of the step just made has been written, unless it is empty
                           assert(driver.sends() == s0 + outs);
                         }
@@ -519,6 +524,8 @@ fn do_remapping_loop_one_device(driver: &mut impl Driver, layout: Layout, verbos
                             driver.send(&release_events)?;
                           }
                           proof {
+                            //@ C20 | a failed write has returned: nothing has failed when execution goes on after a write
+                            assert(!driver.failed());
                             //@ C12 | the releases of everything that was held have been written at once, before anything else is read
                             assert(driver.sends() == s0 + outs);
                           }
@@ -539,6 +546,8 @@ fn do_remapping_loop_one_device(driver: &mut impl Driver, layout: Layout, verbos
                             driver.send(&release_events)?;
                           }
                           proof {
+                            //@ C20 | a failed write has returned: nothing has failed when execution goes on after a write
+                            assert(!driver.failed());
                             //@ C12 | the releases of everything that was held have been written at once, before anything else is read
                             assert(driver.sends() == s0 + outs);
                           }
